@@ -301,19 +301,33 @@ fn random_text(rng: &mut Rng, maxlen: usize) -> String {
     (0..l).map(|_| char::from_u32(*rng.pick(API_ALPHABET)).unwrap()).collect()
 }
 
-/// A (flags, pattern, regex) triple: from the fixed pool or generated.
-fn api_regex(rng: &mut Rng) -> Option<(String, String, Regex)> {
+/// A (flags, pattern, regex, haystacks) tuple: from the fixed pool or generated. The haystacks are
+/// derived from the pattern (sampled from the AST, or random strings over the pattern's own
+/// characters) so that most of them match.
+fn api_regex(rng: &mut Rng) -> Option<(String, String, Regex, Vec<String>)> {
     if rng.chance(1, 2) {
         let (f, p) = *rng.pick(API_PATTERNS);
         let re = compile(p, f, false).ok()?;
-        Some((f.to_string(), p.to_string(), re))
+        let mut alpha: Vec<char> = p.chars().filter(|c| c.is_alphanumeric()).collect();
+        alpha.extend("12 -ab".chars());
+        if p.contains("\\d") {
+            alpha.extend("0123456789".chars());
+        }
+        let mut hays = vec![];
+        for _ in 0..4 {
+            let l = rng.below(11);
+            hays.push((0..l).map(|_| *rng.pick(&alpha)).collect::<String>());
+        }
+        hays.push(random_text(rng, 8));
+        Some((f.to_string(), p.to_string(), re, hays))
     } else {
         let flags = Flags::random(rng);
         let cfg = GenCfg { max_depth: 3, wide_alphabet: false, ..GenCfg::default() };
         let n = Gen::new(rng, flags, &cfg).pattern();
         let p = ast::pattern_string(&n, flags);
         let re = compile(&p, &flags.to_string(), false).ok()?;
-        Some((flags.to_string(), p, re))
+        let hays = ast::haystacks(&n, flags, rng, 4).iter().map(|h| ast::to_string(h)).collect();
+        Some((flags.to_string(), p, re, hays))
     }
 }
 
@@ -360,15 +374,15 @@ pub fn c16(rep: &mut Report, n: usize, seed: u64) {
     let mut rng = Rng::new(seed);
     let mut done = 0;
     while done < n {
-        let Some((flags, pat, re)) = api_regex(&mut rng) else { continue };
+        let Some((flags, pat, re, hays)) = api_regex(&mut rng) else { continue };
         let names = names_of(&re);
         let mut qnames: Vec<String> = names.iter().filter(|s| !s.is_empty()).cloned().collect();
         qnames.sort();
         qnames.dedup();
         qnames.push("nosuch".into());
         qnames.push(String::new());
-        for _ in 0..3 {
-            let text = random_text(&mut rng, 8);
+        for text in hays.iter() {
+            let text = text.clone();
             for m in re.find_iter(&text) {
                 done += 1;
                 let nt = names_token(&re);
@@ -471,11 +485,18 @@ const TEMPLATE_ATOMS: &[&str] = &[
     "${d1}", "${nosuch}", "${", "${a", "${}", "{", "}", "x", "é", "😀", " ", "$x", "$é", "${y}", "${m}", "${first}", "$-", "1", "0", "$$1", "${é}", "${k}",
 ];
 
-fn random_template(rng: &mut Rng) -> String {
+fn random_template(rng: &mut Rng, names: &[String], ngroups: usize) -> String {
     let n = rng.below(6);
     let mut s = String::new();
     for _ in 0..n {
-        s.push_str(*rng.pick(TEMPLATE_ATOMS));
+        // half of the atoms refer to the regex's own groups
+        if !names.is_empty() && rng.chance(1, 3) {
+            s.push_str(&format!("${{{}}}", rng.pick(names)));
+        } else if rng.chance(1, 4) {
+            s.push_str(&format!("${}", rng.below(ngroups + 2)));
+        } else {
+            s.push_str(*rng.pick(TEMPLATE_ATOMS));
+        }
     }
     s
 }
@@ -492,10 +513,12 @@ pub fn c17(rep: &mut Report, n: usize, seed: u64) {
     let mut rng = Rng::new(seed);
     let mut done = 0;
     while done < n {
-        let Some((flags, pat, re)) = api_regex(&mut rng) else { continue };
-        for _ in 0..3 {
-            let text = random_text(&mut rng, 10);
-            let tmpl = random_template(&mut rng);
+        let Some((flags, pat, re, hays)) = api_regex(&mut rng) else { continue };
+        let re_names: Vec<String> = names_of(&re).into_iter().filter(|n| !n.is_empty()).collect();
+        let ngroups = count_groups_of(&re);
+        for text in hays.iter() {
+            let text = text.clone();
+            let tmpl = random_template(&mut rng, &re_names, ngroups);
             let ms: Vec<_> = re.find_iter(&text).collect();
             let nt = names_token(&re);
             let tmpl_cps: Vec<u32> = tmpl.chars().map(|c| c as u32).collect();
@@ -609,11 +632,11 @@ pub fn c09(rep: &mut Report, n: usize, seed: u64) {
     let mut rng = Rng::new(seed);
     let mut done = 0;
     while done < n {
-        let Some((flags, pat, re)) = api_regex(&mut rng) else { continue };
+        let Some((flags, pat, re, hays)) = api_regex(&mut rng) else { continue };
         let dump = regress::verif::dump_program(&re);
         let anchored = dump.lines().nth(1) == Some("S anchored");
-        for _ in 0..2 {
-            let text = random_text(&mut rng, 9);
+        for text in hays.iter().take(3) {
+            let text: String = text.chars().take(10).collect();
             let bounds = boundaries(&text);
             for exec in [Exec::Bt, Exec::Pk] {
                 // the attempt table of this executor
